@@ -2476,6 +2476,60 @@ def rule_ndjson_lookahead(out, tier):
                           "the handler ends in a throw", "a handler for `%s` completes normally: malformed or truncated JSON is turned into a normal result" % etype)
 
 
+def rule_ndjson_field_omission(out, tier):
+    rid = "NS1"
+    out.rule(rid, "detail/ndjson/serializers.h ShouldSerializeFieldValue (analysed when nlohmann/json.hpp is installed): a record field is left out of the JSON only for an empty "
+                  "optional, and for a union only when its first alternative is std::monostate and active — the overload for std::variant answers `index() != 0` only under the "
+                  "`is_same_v<std::monostate, variant_alternative_t<0, …>>` test and `true` otherwise", 0)
+    roots, rc, err = dump_ndjson(out.repo, "serializers.h")
+    rel = INC + "/detail/ndjson/serializers.h"
+    if roots is None:
+        out.stats["NS1_not_analysed"] = err
+        return
+    if rc != 0 or not roots:
+        out.undecided(rid, "clang/ndjson/serializers.h", rel, "clang could not parse the header: " + err[-300:])
+        return
+    try:
+        text = open(os.path.join(out.repo, rel), encoding="utf-8", errors="replace").read()
+    except OSError:
+        text = ""
+    seen = set()
+    n = 0
+    for r in roots:
+        annotate_lines(r)
+        for fn in walk(r):
+            if fn.get("kind") != "FunctionDecl" or fn.get("name") != "ShouldSerializeFieldValue" or body_of(fn) is None or fn.get("id") in seen:
+                continue
+            seen.add(fn.get("id"))
+            ps = params_of(fn)
+            ptype = (ps[0].get("type") or {}).get("qualType", "") if ps else ""
+            if "variant" not in ptype:
+                continue
+            cp = CxxPaths({})
+            paths = cp.paths(fn)
+            posn = "%s:%d" % (rel, fn.get("_line", 0))
+            if cp.overflow or not paths:
+                out.undecided(rid, "ShouldSerializeFieldValue(variant)/paths", posn, "cannot enumerate the paths")
+                continue
+            n += 1
+            src = _src(body_of(fn), text)
+            guarded_by_monostate = "monostate" in src and "variant_alternative" in src
+            bad = None
+            for p in paths:
+                if p.outcome != "return":
+                    continue
+                if p.ret.replace(" ", "") == "true":
+                    continue
+                # anything else than `true` (omit the field for some values) needs the monostate test to have succeeded
+                if not (guarded_by_monostate and any(v for l, v in p.lits if "is_same" in l)):
+                    bad = p
+            out.check(bad is None, rid, "ShouldSerializeFieldValue(variant)", posn, "`index() != 0` only where alternative 0 is std::monostate",
+                      "the overload for std::variant can answer `%s` without the first alternative being known to be std::monostate: a field holding the first case of a union without a "
+                      "null case is left out of the JSON and read back default-constructed" % (bad.ret if bad else ""))
+    if n == 0:
+        out.undecided(rid, "anchor/ShouldSerializeFieldValue(variant)", rel, "overload for std::variant not found")
+
+
 def rule_no_swallowed_eof(out, tier):
     rid = "CB6"
     out.rule(rid, "binary runtime headers: the end-of-stream exception propagates — no routine of coded_stream.h, serializers.h, header.h or reader_writer.h catches "
@@ -2524,7 +2578,7 @@ RULES = {
     "C16": [rule_coded_stream_bounds, rule_blocks, rule_fill_loops_end, rule_stream_reads_counted, rule_no_swallowed_eof, rule_ndjson_lookahead],
     "C01": [rule_coded_stream_bounds, rule_serializer_twins, rule_output_order, rule_reader_overwrites, rule_trivial_trait_set, rule_blocks, rule_zigzag_width, rule_integer_dispatch, rule_shift_in_destination_type, rule_varint_constants],
     "C15": [rule_cxx_header, rule_ndjson_header, rule_no_static_locals_from_arguments],
-    "C02": [rule_ndjson_lookahead],
+    "C02": [rule_ndjson_lookahead, rule_ndjson_field_omission],
     "C04": [rule_cxx_header, rule_output_order, rule_ndjson_header, rule_no_static_locals_from_arguments],
     "C03": [rule_output_order, rule_reader_overwrites, rule_integer_dispatch, rule_shift_in_destination_type, rule_zigzag_width, rule_varint_constants],
     "C17": [rule_reader_overwrites, rule_blocks, rule_trivial_trait_set, rule_output_order, rule_pointer_offset_units, rule_coded_stream_bounds],
